@@ -36,7 +36,9 @@ struct Case {
 
 fn gen_case(tape: &[u32]) -> Case {
     let mut t = Tape::new(tape.to_vec());
-    let mut spec = gen_map(&mut t, &MapProfile::small(ALL_MODES, 60));
+    // families are drawn first, while the tape still has entropy (an exhausted tape reads as zeros)
+    let family = t.weighted(&[115, 2, 3]);
+    let mut spec = gen_map(&mut t, &MapProfile::small(ALL_MODES, if family == 1 { 30 } else { 60 }));
     // long-gap family: breaks of 10 s .. 20 h inside the suspicion limit => runs of zero sections
     let long_gap = t.chance(1, 3) && spec.objects.len() >= 2;
     if long_gap {
@@ -49,7 +51,47 @@ fn gen_case(tape: &[u32]) -> Case {
         } as f64;
         shift_from(&mut spec, at, gap);
     }
-    let target = pick_target(&mut t, spec.mode);
+    // long family: the generated objects repeated until the map has 1030-3000 objects (size-dependent code paths)
+    let long = family == 1 && spec.objects.len() >= 4;
+    if long {
+        let want = t.range(1030, 3000) as usize;
+        let base = spec.objects.clone();
+        let period = base.last().unwrap().time - base[0].time + 300.0;
+        let mut k = 1.0;
+        while spec.objects.len() < want {
+            for o in &base {
+                let mut o = o.clone();
+                o.time += period * k;
+                if let ObjKind::Spinner { end } | ObjKind::Hold { end } = &mut o.kind {
+                    *end += period * k;
+                }
+                spec.objects.push(o);
+            }
+            k += 1.0;
+        }
+    }
+    // margin family: taiko at a clock rate r with 5r integral, gaps in pairs (a, a + 5r): after the rate is
+    // applied consecutive intervals differ by the rhythm-grouping margin of 5 ms up to rounding
+    let margin = family == 2;
+    let mut margin_rate = None;
+    if margin {
+        let r = *t.pick(&[1.2, 1.4, 0.6, 0.8, 1.6, 1.8, 1.0, 2.0]);
+        margin_rate = Some(r);
+        let n = t.range(20, 80) as usize;
+        let mut time = 0.0;
+        spec.mode = t.below(2) as u8;
+        spec.objects.clear();
+        while spec.objects.len() < n {
+            let a = t.range(60, 2000) as f64;
+            let pair = [a, a, a + 5.0 * r, a + 5.0 * r];
+            let reps = t.range(1, 4) as usize;
+            for gap in pair.iter().flat_map(|g| std::iter::repeat(*g).take(reps)) {
+                time += gap;
+                spec.objects.push(rosu_verif::gen::map::ObjSpec { x: 256, y: 192, time, kind: ObjKind::Circle, sound: *t.pick(&[0u8, 0, 8, 2]), custom_sample: false });
+            }
+        }
+    }
+    let target = if margin { GameMode::Taiko } else { pick_target(&mut t, spec.mode) };
     let mut dspec = gen_diff(&mut t, &DiffProfile::realistic().passed(spec.objects.len() as u32), target);
     // ultra-gap class: a gap of 72-130 minutes at clock rate 0.01, i.e. 5-9 days of clock-adjusted
     // emptiness = more than 2^20 consecutive zero sections (about 10 MB per skill in the raw layout)
@@ -60,6 +102,9 @@ fn gen_case(tape: &[u32]) -> Case {
         shift_from(&mut spec, at, gap);
         dspec.clock_rate = Some(0.01);
     }
+    if let Some(r) = margin_rate {
+        dspec.clock_rate = Some(r);
+    }
     let score = gen_score_spec(&mut t, spec.objects.len() as u32);
     let mut labels = vec![format!("mode{}", spec.mode), format!("target={target:?}")];
     if long_gap {
@@ -67,6 +112,12 @@ fn gen_case(tape: &[u32]) -> Case {
     }
     if ultra {
         labels.push("ultra-gap(>2^20 zero sections)".into());
+    }
+    if long {
+        labels.push("long-family(>=1030 objects)".into());
+    }
+    if margin {
+        labels.push("taiko-interval-margin-family".into());
     }
     Case { text: spec.render(), target, dspec, score, labels }
 }
